@@ -734,7 +734,7 @@ def run(ctx):
         finite_ok = False
 
     # =========================================================== apply semantics
-    ctx.rule("APPLY-SEMANTICS", "FaceModify::apply evaluated for every single-field modification on 192 attribute states x 2 colour states: sets/clears exactly that attribute, reset gives the default face", floor=17)
+    ctx.rule("APPLY-SEMANTICS", "FaceModify::apply evaluated for every single-field modification on 192 attribute states x 2 colour states: sets/clears exactly that attribute, reset gives the default face", floor=33)
     if ap is not None and st is not None and layout_ok and len(flag_bits) == len(flag_names):
         ca, cb, cn1, cn2 = ("RGBA", 1, 2, 3, 255), ("RGBA", 4, 5, 6, 255), ("RGBA", 7, 8, 9, 255), ("RGBA", 10, 11, 12, 255)
         states = []
